@@ -76,7 +76,7 @@ func runEnvCase(c envCase, tmp string) map[string]interface{} {
 	cfg := &plugin.ClientConfig{
 		HandshakeConfig: plugin.HandshakeConfig{MagicCookieKey: envNames["COOKIE"], MagicCookieValue: "CLIENT-cookie"},
 		MinPort:         11111, MaxPort: 22222,
-		AutoMTLS:        c.Cfg.AutoMTLS, GRPCBrokerMultiplex: c.Cfg.Mux, SkipHostEnv: c.Cfg.Skip,
+		AutoMTLS: c.Cfg.AutoMTLS, GRPCBrokerMultiplex: c.Cfg.Mux, SkipHostEnv: c.Cfg.Skip,
 		StartTimeout: 300 * time.Millisecond, Logger: hclog.NewNullLogger(),
 		UnixSocketConfig: &plugin.UnixSocketConfig{TempDir: tmp},
 	}
